@@ -11,6 +11,10 @@ from . import scalar as rs
 from ..gen import workbooks as gw
 
 UNKNOWN = ('unknown',)
+ERR_FUNCS = ('IFERROR', 'ISERROR', 'ISERR', 'ISNA', 'ISNUMBER', 'ISTEXT',
+             'ERROR.TYPE')
+ERR_TYPES = {'#NULL!': 1, '#DIV/0!': 2, '#VALUE!': 3, '#REF!': 4, '#NAME?': 5,
+             '#NUM!': 6, '#N/A': 7}
 MAXC, MAXR = 16384, 1048576
 
 
@@ -140,6 +144,8 @@ class Evaluator:
             return xl.canon(t[1])
         if k == 'err':
             return xl.c_err(t[1])
+        if k == 'raw':
+            return UNKNOWN
         if k in ('cell', 'rng', 'row', 'col', 'name'):
             r = self.resolve(t)
             if r[0] == 'value':
@@ -267,6 +273,28 @@ class Evaluator:
             if isinstance(v, list):
                 return UNKNOWN
             return v
+        if name in ERR_FUNCS:
+            v = self.eval(args[0], host)
+            if v is UNKNOWN or isinstance(v, list):
+                return UNKNOWN
+            if name == 'IFERROR':
+                if v[0] != 'err':
+                    return v
+                w = self.eval(args[1], host)
+                return UNKNOWN if isinstance(w, list) else w
+            if name == 'ISERROR':
+                return xl.c_bool(v[0] == 'err')
+            if name == 'ISERR':
+                return xl.c_bool(v[0] == 'err' and v[1] != '#N/A')
+            if name == 'ISNA':
+                return xl.c_bool(v[0] == 'err' and v[1] == '#N/A')
+            if name == 'ISNUMBER':
+                return xl.c_bool(v[0] == 'num')
+            if name == 'ISTEXT':
+                return xl.c_bool(v[0] == 'text')
+            if v[0] != 'err':
+                return xl.c_err('#N/A')
+            return xl.c_num(ERR_TYPES[v[1]])
         if name == 'ISBLANK':
             r = self.resolve(args[0])
             if r[0] != 'cell':
